@@ -51,12 +51,18 @@ EData ==    \* handlePolling -> fillDataToReadBuffer: pendingData.add(buf)
     /\ IF inTable THEN pending' = Append(pending, ei) /\ epc' = "chk" /\ ei' = ei
                   ELSE pending' = pending /\ epc' = "next" /\ ei' = ei + 1     \* unknown stream (client end): buffer recycled
     /\ UNCHANGED <<state, recv, offered, cip, ccs, gpc, wg, inOnData, upc, cpcOf, oldOf>> /\ U1 /\ KeepKf
-EChk ==     \* Stream.getStreamState:LoadUint32   "stream had closed": drop what arrived
+EChk ==     \* Stream.getStreamState:LoadUint32   "stream had closed": drop what arrived (pendingData.clear)
     /\ epc = "chk"
     /\ IF state = "closed"
-         THEN /\ pending' = <<>> /\ recv' = <<>> /\ epc' = "next" /\ ei' = ei + 1
-         ELSE /\ UNCHANGED <<pending, recv, ei>> /\ epc' = "cas"
-    /\ UNCHANGED <<state, offered, cip, ccs, gpc, wg, inOnData, upc, cpcOf, oldOf>> /\ U1 /\ KeepKf
+         THEN /\ pending' = <<>> /\ epc' = "drop"
+         ELSE /\ UNCHANGED pending /\ epc' = "cas"
+    /\ UNCHANGED <<state, recv, ei, offered, cip, ccs, gpc, wg, inOnData, upc, cpcOf, oldOf>> /\ U1 /\ KeepKf
+EDrop ==    \* Stream.fillDataToReadBuffer:LoadUint32 callbackInProcess: the read buffer is recycled here only when no callback
+            \* goroutine can be inside OnData (otherwise close(), which waits for it, recycles it in clean())
+    /\ epc = "drop"
+    /\ recv' = IF cip = 0 THEN <<>> ELSE recv
+    /\ epc' = "next" /\ ei' = ei + 1
+    /\ UNCHANGED <<state, pending, offered, cip, ccs, gpc, wg, inOnData, upc, cpcOf, oldOf>> /\ U1 /\ KeepKf
 ECas ==     \* Stream.fillDataToReadBuffer:CompareAndSwapUint32 (callbackInProcess 0 -> 1), wg.Add(1)
     /\ epc = "cas"
     /\ IF cip = 0
@@ -180,7 +186,7 @@ GReCas(g) ==      \* Stream.fillDataToReadBuffer:CompareAndSwapUint32 (second on
                   ELSE /\ UNCHANGED <<cip, recv, pending>> /\ wg' = wg - 1 /\ gpc' = [gpc EXCEPT ![g] = "none"]
     /\ UNCHANGED <<state, offered, ccs, epc, ei, inOnData, upc, cpcOf, oldOf>> /\ U1 /\ KeepKf
 
-EStep == EData \/ EChk \/ ECas \/ ERechk \/ EUndo \/ EClose \/ EHalf
+EStep == EData \/ EChk \/ EDrop \/ ECas \/ ERechk \/ EUndo \/ EClose \/ EHalf
 CStep(c) == PubClose1(c) \/ PubClose2(c) \/ PubClose3(c) \/ CloseBegin(c) \/ CloseCas(c) \/ CloseWait(c) \/ CloseClean(c)
 GStep(g) == GMove(g) \/ GLoop(g) \/ GOnDataClose(g) \/ GOnDataCloseRet(g) \/ GOnDataEnd(g) \/ GClr(g) \/ GLdCcs(g)
             \/ GClosingRet(g) \/ GReCas(g)
@@ -206,6 +212,11 @@ CallbackOnce == Guard(localCb + remoteCb <= 1 /\ ((Settled /\ state = "closed") 
 \* exists or can appear - except one that has already signed off (wg.Done) and is only calling close() itself, which
 \* finds the stream closed. Its violation is a data race between moveTo (appends to the read buffer) and recycle.
 CleanAlone == Guard(\A c \in Callers : cpcOf[c] = "clean" => \A g \in G : (g = c \/ gpc[g] \in {"none", "closing"}))
+\* the event loop recycles the read buffer of a closed stream (EDrop) only when callbackInProcess = 0; that is safe because
+\* a goroutine inside OnData always holds the role (before fix 4f9abf0 the recycle was unconditional: a data frame for a
+\* stream closed by the user while a just spawned goroutine was inside OnData pulled the read buffer from under it)
+OnDataHoldsRole == Guard(inOnData > 0 => cip = 1)
+RecycleOnlyIdle == [][(epc = "drop" /\ epc' = "next" /\ recv' # recv) => inOnData = 0]_vars
 \* the unguarded forms (used to show that the classifier is not vacuous / to re-find the listed findings)
 RawNoStranding == (Settled /\ ~localCloseCalled) => DataIds \subseteq Range(offered)
 RawPeerLearns == (Settled /\ localCloseCalled) => (state = "closed" /\ (peerNotified \/ remoteCb > 0))
